@@ -223,7 +223,7 @@ func SingleFloat64ToFixedPointCRT(r *ring.Ring, i int, value float64, scale floa
 			}
 		} else {
 			for j, qi := range moduli {
-				if c > 0x1fffffffffffffff {
+				if c >= qi {
 					coeffs[j][i] = ring.BRedAdd(c, qi, brc[j])
 				} else {
 					coeffs[j][i] = c
